@@ -13,7 +13,10 @@ def grids(c, v, tier):
             pts = [(o, n) for o in (0, 1, blk // 2, blk - 1, blk) for n in (0, 1, blk - 1, blk, blk + 1, 2 * blk, 2 * blk + 1)]
     else:
         if tier == 'thorough':
-            pts = [(o, n) for o in range(0, B + 1) for n in sorted(set(list(range(0, 2 * blk + 2)) + [B - 1, B, B + 1, 2 * B - 1, 2 * B, 2 * B + 1, 2 * B + blk]))]
+            os_ = sorted(set([0, 1, blk - 1, blk, blk + 1, 2 * blk, B // 2, B - blk - 1, B - blk, B - 1, B]))
+            ns_ = sorted(set(list(range(0, 2 * blk + 2)) + [B - 1, B, B + 1, 2 * B - 1, 2 * B, 2 * B + 1, 2 * B + blk]))
+            if c == 3: ns_ = [n for n in ns_ if n <= B + 1]
+            pts = [(o, n) for o in os_ for n in ns_]
         else:
             pts = []
             if c == 3:      # Mantis vec128: each point costs 20 s - 5 min even at 0 rounds (measured), so the quick grid is small
@@ -35,7 +38,7 @@ def plan(tier):
         fs = 1300 if v else None
         lowr = 0 if (c == 3 and v) else 1      # the glue never looks at the round count; Mantis vec128 is costly even so
         for (o, n) in pts:
-            for inplace in ((0, 1) if (tier == 'thorough' or (o, n) in pts[:3]) else (0,)):
+            for inplace in ((0, 1) if ((tier == 'thorough' and (v == 0 or n in (1, blk + 1, B + 1))) or (o, n) in pts[:3]) else (0,)):
                 qs.append(Q('step:%s:o%d:n%d%s' % (name, o, n, ':inplace' if inplace else ''), 'c05.c',
                             'from ANY state Inv(C, o=%d) of the %s back end (arbitrary %d-round key schedule, arbitrary counter C incl. all carries and wrap-around, arbitrary data): encrypt(%d bytes%s) returns 1, '
                             'output = input xor (rest of buffered batch, then E(C), E(C+1), ...), and Inv holds again for the advanced counter/offset' % (o, name, lowr, n, ', out == in' if inplace else ''),
